@@ -126,10 +126,10 @@ func (i IBCMiddleware) OnRecvPacket(
 	return ack
 }
 
+// newErrorAcknowledgement returns an error acknowledgement carrying only the ABCI code of the
+// error, as ibc-go does. The acknowledgement is committed to state and the text of an error is
+// not guaranteed to be deterministic (e.g. with several unknown fields in the memo the proto JSON
+// decoder reports one picked by iterating over a map), so it must not be part of it.
 func newErrorAcknowledgement(err error) channeltypes.Acknowledgement {
-	return channeltypes.Acknowledgement{
-		Response: &channeltypes.Acknowledgement_Error{
-			Error: errorsmod.Wrap(err, "orbiter-middleware error").Error(),
-		},
-	}
+	return channeltypes.NewErrorAcknowledgement(errorsmod.Wrap(err, "orbiter-middleware error"))
 }
